@@ -1265,8 +1265,13 @@ RCP<const Set> Union::set_union(const RCP<const Set> &o) const
         auto temp = o->set_union(*iter);
         // If we are able to do union with `*iter`, we replace `*iter` with
         // the result of union.
-        auto un = SymEngine::make_set_union({o, *iter});
-        if (not eq(*temp, *un)) {
+        set_set un({o, *iter});
+        if (not(un.size() == 1
+                    ? eq(*temp, **un.begin())
+                    : (is_a<Union>(*temp)
+                       and unified_eq(
+                           down_cast<const Union &>(*temp).get_container(),
+                           un)))) {
             iter = container.erase(iter);
             container.insert(temp);
             return SymEngine::set_union(container);
